@@ -159,6 +159,19 @@ class StmtMixin:
                     name = t.a[0]
                 elif t.k in ("exc", "builtin"):
                     name = t.a[0]
+                elif isinstance(s.exc, ast.Call) and t.k in ("func", "bound"):
+                    # `raise make_error(...)`: the class is that of the object the factory returns
+                    self.quiet += 1
+                    try:
+                        v = self.ev(s.exc, env.clone(), mod, fn)
+                    finally:
+                        self.quiet -= 1
+                    if v.k == "exc":
+                        name = v.a[0]
+                    elif v.k == "obj" and isinstance(v.ty, str):
+                        name = v.ty
+                    else:
+                        name = ast.unparse(e)
                 else:
                     name = ast.unparse(e)
             except Unsupported:
